@@ -26,6 +26,14 @@ class _Scripted:
         self.i += 1
         return v
 
+    def random(self, size=None):
+        return self.rand()
+
+    random_sample = random
+
+    def uniform(self, low=0.0, high=1.0, size=None):
+        return low + (high - low) * self.rand()
+
     def seed(self, s=None):
         pass
 
@@ -54,7 +62,11 @@ def _trajectory(make_env, actions, draws, modelled, steps_cap):
         inject.install([(m_env, 'spaces', stubs.SpacesModel)])
         npmodel.random = scripted
     orig = _np.random.rand
+    orig_more = {k: getattr(_np.random, k) for k in ('random', 'random_sample', 'uniform')}
     _np.random.rand = scripted.rand
+    _np.random.random = scripted.random
+    _np.random.random_sample = scripted.random
+    _np.random.uniform = scripted.uniform
     try:
         env = make_env()
         o, _ = env.reset()
@@ -71,6 +83,8 @@ def _trajectory(make_env, actions, draws, modelled, steps_cap):
                 rec.append(('reset', _plain(o)))
     finally:
         _np.random.rand = orig
+        for k_, v_ in orig_more.items():
+            setattr(_np.random, k_, v_)
         if modelled:
             npmodel.random = saved_random
             inject.uninstall()
